@@ -14,6 +14,65 @@ pub enum GT {
     Arrow(Box<GT>, Box<GT>),
     Forall(String, Box<GT>), // (a : type) -> body
     TVar(String),
+    // a value-dependent identity: (i : index) -> (if cond(i) then int else bool) -> (same)
+    Dep(DepKind),
+}
+
+#[derive(Clone, Copy, Debug, PartialEq, Eq)]
+pub enum DepKind {
+    BoolIndexed,
+    IntIndexed(u8, i64), // comparison operator code (0..5: < <= == > >=), constant
+}
+
+impl DepKind {
+    fn index_type(self) -> H {
+        match self {
+            DepKind::BoolIndexed => H::Bool,
+            DepKind::IntIndexed(..) => H::Int,
+        }
+    }
+    fn cond(self, index: H) -> H {
+        match self {
+            DepKind::BoolIndexed => index,
+            DepKind::IntIndexed(op, k) => H::Bin([Op::Lt, Op::Le, Op::Eq, Op::Gt, Op::Ge][op as usize % 5], hb(index), hb(H::lit(k))),
+        }
+    }
+    fn holds(self, v: i64) -> bool {
+        match self {
+            DepKind::BoolIndexed => v != 0,
+            DepKind::IntIndexed(op, k) => match op % 5 {
+                0 => v < k,
+                1 => v <= k,
+                2 => v == k,
+                3 => v > k,
+                _ => v >= k,
+            },
+        }
+    }
+    // an index literal for which the family is `int` (want_int) or `bool`
+    fn index_for(self, want_int: bool, r: &mut Rng) -> H {
+        match self {
+            DepKind::BoolIndexed => {
+                if want_int {
+                    H::True
+                } else {
+                    H::False
+                }
+            }
+            DepKind::IntIndexed(_, k) => {
+                for _ in 0..50 {
+                    let v = k + r.range(-3, 3);
+                    if self.holds(v) == want_int {
+                        return if v < 0 { H::Neg(hb(H::lit(-v))) } else { H::lit(v) };
+                    }
+                }
+                H::lit(k)
+            }
+        }
+    }
+    fn family(self, index: H) -> H {
+        H::If(hb(self.cond(index)), hb(H::Int), hb(H::Bool))
+    }
 }
 
 impl GT {
@@ -60,6 +119,7 @@ pub struct Entry {
 pub enum Arg {
     Term(GT),
     Type(GT),
+    DepIndex(DepKind, bool), // an index making the family int (true) or bool (false)
 }
 
 #[derive(Clone, Copy, Debug, PartialEq, Eq)]
@@ -148,6 +208,11 @@ impl<'a> ProgGen<'a> {
             GT::Bool => H::Bool,
             GT::Type => H::Type,
             GT::TVar(a) => H::Var(a.clone()),
+            GT::Dep(k) => {
+                let i = self.fresh_name("ix");
+                let fam = || k.family(H::Var(i.clone()));
+                H::Pi(i.clone(), false, hb(k.index_type()), hb(H::Pi("_".into(), false, hb(fam()), hb(fam()))))
+            }
             GT::Arrow(d, c) => {
                 let dh = self.ty_h(d);
                 if self.r.chance(1, 8) {
@@ -260,6 +325,14 @@ impl<'a> ProgGen<'a> {
                     v.push((e.name.clone(), args.clone(), e.recursive_fn));
                 }
                 match &cur {
+                    GT::Dep(k) => {
+                        if *t == GT::Int || *t == GT::Bool {
+                            let mut a = args.clone();
+                            a.push(Arg::DepIndex(*k, *t == GT::Int));
+                            a.push(Arg::Term(t.clone()));
+                            v.push((e.name.clone(), a, false));
+                        }
+                    }
                     GT::Arrow(d, c) => {
                         let mut a = args.clone();
                         a.push(Arg::Term((**d).clone()));
@@ -296,6 +369,10 @@ impl<'a> ProgGen<'a> {
                         Arg::Type(ty) => {
                             self.feature("type-application");
                             self.ty_h(ty)
+                        }
+                        Arg::DepIndex(k, want_int) => {
+                            self.feature("dependent-family-application");
+                            k.index_for(*want_int, self.r)
                         }
                         Arg::Term(_) if rec => H::lit(self.r.below(7) as i64),
                         Arg::Term(a) => self.term(a, depth.saturating_sub(1)),
@@ -367,6 +444,11 @@ impl<'a> ProgGen<'a> {
                 self.ctx.pop();
                 H::Lam(a.clone(), false, Some(hb(H::Type)), hb(body))
             }
+            GT::Dep(k) => {
+                let i = self.fresh_name("ix");
+                let x = self.fresh_name("dx");
+                H::Lam(i.clone(), false, Some(hb(k.index_type())), hb(H::Lam(x.clone(), false, Some(hb(k.family(H::Var(i)))), hb(H::Var(x)))))
+            }
             GT::TVar(_) => {
                 // only reachable through a variable of that type
                 let c = self.candidates(t);
@@ -437,7 +519,7 @@ impl<'a> ProgGen<'a> {
                 self.ctx.pop();
                 H::Lam(a.clone(), false, Some(hb(H::Type)), hb(body))
             }
-            GT::TVar(_) => self.leaf(t),
+            GT::TVar(_) | GT::Dep(_) => self.leaf(t),
         }
     }
 
@@ -527,6 +609,7 @@ impl<'a> ProgGen<'a> {
             MutualA,
             MutualB,
             Poly(u8),
+            DepFn(DepKind),
             Alias(GT),
             AliasedValue(usize), // value whose annotation is the alias defined at that (possibly later) index
         }
@@ -540,6 +623,10 @@ impl<'a> ProgGen<'a> {
                     kinds.push(Kind::MutualB);
                 }
                 3 | 4 => kinds.push(Kind::Poly(self.r.below(5) as u8)),
+                7 if self.cfg.type_level => {
+                    let k = if self.r.chance(1, 2) { DepKind::BoolIndexed } else { DepKind::IntIndexed(self.r.below(5) as u8, self.r.range(-2, 3)) };
+                    kinds.push(Kind::DepFn(k));
+                }
                 5 if self.cfg.type_level => {
                     let ty = self.random_type(1);
                     if !ty.mentions_tvar() || self.r.chance(1, 2) {
@@ -581,6 +668,7 @@ impl<'a> ProgGen<'a> {
                         _ => ("compose", fa("a", fa("b", fa("c", ar(ar(tv("b"), tv("c")), ar(ar(tv("a"), tv("b")), ar(tv("a"), tv("c")))))))),
                     }
                 }
+                Kind::DepFn(k) => ("dep", GT::Dep(*k)),
                 Kind::Alias(_) => ("t", GT::Type),
                 Kind::AliasedValue(j) => match &kinds[*j] {
                     Kind::Alias(t) => ("aliased", t.clone()),
@@ -607,7 +695,7 @@ impl<'a> ProgGen<'a> {
         // a syntactic value may mention any *function-valued* definition of the group; any other
         // definition may mention earlier definitions and later function-valued ones whose bodies
         // mention only function-valued definitions. Annotations may mention every alias.
-        let is_fn: Vec<bool> = kinds.iter().map(|k| matches!(k, Kind::RecFn | Kind::MutualA | Kind::MutualB | Kind::Poly(_))).collect();
+        let is_fn: Vec<bool> = kinds.iter().map(|k| matches!(k, Kind::RecFn | Kind::MutualA | Kind::MutualB | Kind::Poly(_) | Kind::DepFn(_))).collect();
         let mut defs: Vec<(String, Option<Box<H>>, H)> = vec![];
         for i in 0..n {
             // annotation: every alias of the group is usable there (forward references in types)
@@ -664,6 +752,14 @@ impl<'a> ProgGen<'a> {
                     let call = H::App(hb(H::Var(other)), hb(H::Bin(Op::Sub, hb(H::Var(p.clone())), hb(H::lit(1)))));
                     let body = H::If(hb(H::Bin(Op::Le, hb(H::Var(p.clone())), hb(H::lit(0)))), hb(base_val.clone()), hb(H::If(hb(H::Bin(Op::Gt, hb(H::Var(p.clone())), hb(H::lit(40)))), hb(base_val), hb(call))));
                     H::Lam(p, false, Some(hb(H::Int)), hb(body))
+                }
+                Kind::DepFn(k) => {
+                    self.feature("dependent-family-definition");
+                    let i = self.fresh_name("ix");
+                    self.ctx.push(Entry { name: i.clone(), ty: GT::Int, alias_of: None, usable: false, recursive_fn: false });
+                    let x = self.fresh_name("");
+                    self.ctx.pop();
+                    H::Lam(i.clone(), false, Some(hb(k.index_type())), hb(H::Lam(x.clone(), false, Some(hb(k.family(H::Var(i)))), hb(H::Var(x)))))
                 }
                 Kind::Poly(_) => {
                     self.feature("polymorphic-definition");
@@ -792,5 +888,9 @@ pub fn type_to_h(t: &GT) -> H {
         GT::TVar(a) => H::Var(a.clone()),
         GT::Arrow(d, c) => H::Pi("_".into(), false, hb(type_to_h(d)), hb(type_to_h(c))),
         GT::Forall(a, b) => H::Pi(a.clone(), false, hb(H::Type), hb(type_to_h(b))),
+        GT::Dep(k) => {
+            let fam = || k.family(H::var("ix"));
+            H::Pi("ix".into(), false, hb(k.index_type()), hb(H::Pi("_".into(), false, hb(fam()), hb(fam()))))
+        }
     }
 }
